@@ -209,6 +209,17 @@ ssize_t write(int fd, const void *buf, size_t count) {
         if (arm_kind == 1) {
             arm_count++;
             if (arm_count == arm_nth) {
+                if (arm_err == 0 && arm_short > 0 && (size_t)arm_short < count) {
+                    /* a short write that is not followed by an error (the caller must retry the rest) */
+                    ssize_t r = real_write(fd, buf, (size_t)arm_short);
+                    if (r > 0) {
+                        log_write(fd, offs[fd], buf, (size_t)r);
+                        offs[fd] += r;
+                    }
+                    arm_kind = 0;
+                    logf_("F shortwrite %ld\n", arm_short);
+                    return r;
+                }
                 if (arm_short >= 0 && (size_t)arm_short < count) {
                     /* short write now, the error on the retry */
                     size_t n = (size_t)arm_short;
